@@ -866,6 +866,12 @@ class UsersDictionary(utils.IterableMap):
             # The database is line-oriented; such a name would be read back as
             # additional lines of the record (e.g. a capability line).
             raise ValueError('User names cannot contain line breaks.')
+        # The caller may have changed the user object in place already (it is
+        # the very object stored in self.users), and may keep that change even
+        # if the checks below refuse it: answers cached before this call can no
+        # longer be trusted.
+        self._hostmaskCache.clear()
+        self._nameCache.clear()
         self.nextId = max(self.nextId, user.id)
         try:
             if self.getUserId(user.name) != user.id:
